@@ -410,6 +410,53 @@ fn twin_leg(acc: &mut Acc) {
     }
 }
 
+/// Other renderings of the same content: an authorised key's genuine signature over the block's
+/// content written in another way than the signing form (the JSON-escaped canonical form that older
+/// versions signed, plain serde output compact and pretty, the signing form plus a line feed). Where
+/// the rendering differs from the signing form - it does as soon as a string holds a control
+/// character - it is a signature over other bytes and must not count.
+fn renderings_leg(acc: &mut Acc) {
+    let mut metas: Vec<(String, MetadataWrapper)> = world::sample_links("step").into_iter().map(|(n, l)| (format!("link/{n}"), MetadataWrapper::Link(l))).collect();
+    let mut lay = world::layout(vec![world::step("s", 1, &[keys::get("ed1")])], vec![], &[keys::get("ed1")], world::far_future());
+    lay.readme = "line one\nline two\ttabbed".into();
+    metas.push(("layout/readme with control characters".to_string(), MetadataWrapper::Layout(lay)));
+    for (mname, meta) in &metas {
+        let Ok(signable) = meta.to_signable_bytes() else { continue };
+        let mut with_lf = signable.clone();
+        with_lf.push(b'\n');
+        let renderings: Vec<(&str, Option<Vec<u8>>)> = vec![
+            ("JSON-escaped canonical form (to_bytes)", meta.to_bytes().ok()),
+            ("serde_json compact", serde_json::to_vec(meta).ok()),
+            ("serde_json pretty", serde_json::to_vec_pretty(meta).ok()),
+            ("signing form plus a line feed", Some(with_lf)),
+        ];
+        for kname in ["ed1", "ec1", "rsa256a"] {
+            let k = keys::get(kname);
+            for (rname, bytes) in &renderings {
+                let Some(bytes) = bytes else { continue };
+                if *bytes == signable {
+                    acc.note("rendering-equals-signing-form(not a case)");
+                    continue;
+                }
+                let Guard::Done(Ok(sig)) = guard(|| k.private.sign(bytes)) else { continue };
+                acc.evaluations += 1;
+                acc.nontrivial += 1;
+                acc.states += 1;
+                let b = Metablock { signatures: vec![sig], metadata: meta.clone() };
+                let w = || json!({"kind": "other-rendering", "block": mname, "rendering": rname, "key": kname});
+                match guard(|| b.verify(1, [k.public()])) {
+                    Guard::Done(Ok(_)) => {
+                        acc.outcome("other-rendering-counted");
+                        acc.violation("counted:signature-over-another-rendering", &format!("{mname}: a signature by {kname} over the {rname} of the content - not over its signing form - met threshold 1"), w);
+                    }
+                    Guard::Done(Err(_)) => acc.outcome("other-rendering-not-counted"),
+                    Guard::Panicked(l, m) => acc.violation(&format!("panic:{l}"), &m, w),
+                }
+            }
+        }
+    }
+}
+
 pub fn run(tier: Tier) -> i32 {
     let mut c = Check::new("C04", "model_checking", tier);
     let full = if tier.thorough() { 5 } else { 4 };
@@ -457,6 +504,8 @@ pub fn run(tier: Tier) -> i32 {
         acc.merge(Acc::merge_all(accs));
     }
     twin_leg(&mut acc);
+    renderings_leg(&mut acc);
+    bounds.push("other renderings: 4 blocks x 3 key types x 4 renderings of the same content (escaped canonical form, serde compact / pretty, signing form + LF)".to_string());
     bounds.push("near twins: 3 links + 1 layout x every leaf of the signed part x every small edit that yields another readable block, both directions".to_string());
     c.acc = acc;
     c.rule = "state = signature list (sequence over {valid by A/B/C, garbage labelled A, B's signature relabelled A, second valid signature by A, empty labelled A, A's / B's valid signature under an unknown key id, A's signature over other content, A's valid signature under an id sharing A's first 8 characters / under A's id in upper case}); transition = append one entry; each state is verified for every authorised sequence over {A,B,C} of length <= 3 (with duplicates, and empty) x thresholds {0,1,2,3,u32::MAX} x every iteration order of the internal signature map; two more families have ONE key loaded twice (A, A2: Ed25519 with / without a hash-algorithm list; one RSA modulus declared PSS-SHA256 / PSS-SHA512) next to an unrelated B, with each guise's signature under its own and under the other guise's id: distinct keys are counted by key material; one family has authorised keys whose declared scheme does not fit their material (Ed25519 material declared RSA-PSS) or is unknown: nothing attributed to them counts; non-trivial = list with an invalid entry, a repeated key id or one key under two ids".into();
@@ -469,6 +518,11 @@ pub fn run(tier: Tier) -> i32 {
 }
 
 pub fn replay(case: &Value) -> Value {
+    if case["kind"] == "other-rendering" {
+        let mut acc = Acc::new();
+        renderings_leg(&mut acc);
+        return json!({"note": "the leg is re-run as a whole", "violation": acc.violations.keys().next()});
+    }
     if case["kind"] == "near-twin" {
         let mut acc = Acc::new();
         twin_leg(&mut acc);
